@@ -230,3 +230,319 @@ Qed.
 
 Lemma empty_port_wf : port_wf empty_port.
 Proof. split; [constructor|intros x []]. Qed.
+
+(** * exactness on group-free entries with non-empty port sets (C11) *)
+Definition nonempty_ports (a : ace) : Prop :=
+  (has_op (a_sport a) = true -> p_ports (a_sport a) <> []) /\
+  (has_op (a_dport a) = true -> p_ports (a_dport a) <> []).
+
+Definition some_port (p : port) : N := hd 1 (p_ports p).
+
+Lemma some_port_ok p : port_wf p -> (has_op p = true -> p_ports p <> []) ->
+  1 <= some_port p <= 65535 /\ forall proto, (has_op p = true -> proto = 6 \/ proto = 17) ->
+  port_match p proto (some_port p).
+Proof.
+  intros (S & R) NE. unfold some_port, port_match, has_op in *. destruct (p_op p).
+  - destruct (p_ports p) as [|x l] eqn:E; [exfalso; now apply NE|]. cbn [hd]. split.
+    + apply R. now left.
+    + intros proto H. split; [now apply H|now left].
+  - split; [destruct (p_ports p); cbn; [lia|]|auto].
+    apply R. now left.
+Qed.
+
+Section Exact.
+  Variables (pl : platform) (b t : ace).
+  Variables (bsb msb bdb mdb bst mst bdt mdt : N).
+  Hypotheses (Wb : ace_wf b) (Wt : ace_wf t) (NEb : nonempty_ports b).
+  Hypotheses (Pb : a_proto b < 256).
+  Hypotheses (B1 : bsb < 2 ^ 32) (B2 : msb < 2 ^ 32) (B3 : bdb < 2 ^ 32) (B4 : mdb < 2 ^ 32)
+             (B5 : bst < 2 ^ 32) (B6 : mst < 2 ^ 32) (B7 : bdt < 2 ^ 32) (B8 : mdt < 2 ^ 32).
+  Hypotheses (Dsb : denotes (a_src b) bsb msb) (Ddb : denotes (a_dst b) bdb mdb)
+             (Dst : denotes (a_src t) bst mst) (Ddt : denotes (a_dst t) bdt mdt).
+  Hypothesis INC : forall k, pkt_wf k ->
+      den b [(bsb, msb)] [(bdb, mdb)] k -> den t [(bst, mst)] [(bdt, mdt)] k.
+
+  Let pb := if N.eqb (a_proto b) 0 then 1 else a_proto b.
+  Let src0 := create_prefix bsb msb.
+  Let dst0 := create_prefix bdb mdb.
+
+  Lemma in_wild_self base mask : base < 2 ^ 32 -> in_wild (create_prefix base mask) base mask.
+  Proof.
+    intros Hb. unfold in_wild, create_prefix. rewrite <- N.land_assoc. f_equal. apply N.land_diag.
+  Qed.
+
+  Lemma create_prefix_lt base mask : base < 2 ^ 32 -> create_prefix base mask < 2 ^ 32.
+  Proof. intros H. unfold create_prefix. now apply land_lt. Qed.
+
+  Lemma in_sets_single x base mask : in_sets x [(base, mask)] <-> in_wild x base mask.
+  Proof.
+    unfold in_sets. split.
+    - intros H. inversion H; subst; auto. inversion H1.
+    - intros H. now constructor.
+  Qed.
+
+  (** the generic packet of the bottom entry with chosen protocol / addresses / ports / flags *)
+  Lemma den_bottom proto s d sp dp fl :
+    (a_proto b = 0 \/ a_proto b = proto) -> proto < 256 ->
+    s < 2 ^ 32 -> in_wild s bsb msb -> d < 2 ^ 32 -> in_wild d bdb mdb ->
+    1 <= sp <= 65535 -> port_match (a_sport b) proto sp ->
+    1 <= dp <= 65535 -> port_match (a_dport b) proto dp ->
+    flags_match (a_flags b) proto fl ->
+    den t [(bst, mst)] [(bdt, mdt)] (mkPkt proto s d sp dp fl).
+  Proof.
+    intros. apply INC.
+    - unfold pkt_wf; cbn; tauto.
+    - unfold den; cbn. rewrite !in_sets_single. tauto.
+  Qed.
+
+  Lemma pb_ok : (a_proto b = 0 \/ a_proto b = pb) /\ pb < 256.
+  Proof. unfold pb. destruct (N.eqb_spec (a_proto b) 0); split; auto; lia. Qed.
+
+  Lemma ops_proto : has_op (a_sport b) = true \/ has_op (a_dport b) = true -> pb = 6 \/ pb = 17.
+  Proof.
+    intros H. destruct Wb as (_ & _ & Hp & _). specialize (Hp H). unfold pb.
+    destruct (N.eqb_spec (a_proto b) 0); [destruct Hp; congruence|auto].
+  Qed.
+
+  Lemma flags_proto : a_flags b <> [] -> pb = 6.
+  Proof.
+    intros H. destruct Wb as (_ & _ & _ & Hf). specialize (Hf H). unfold pb.
+    destruct (N.eqb_spec (a_proto b) 0); congruence.
+  Qed.
+
+  Lemma flags_all : flags_match (a_flags b) pb (a_flags b).
+  Proof.
+    unfold flags_match. destruct (a_flags b) as [|f l] eqn:E; [now left|right].
+    split; [apply flags_proto; rewrite E; discriminate|]. exists f. split; now left.
+  Qed.
+
+  Let sp0 := some_port (a_sport b).
+  Let dp0 := some_port (a_dport b).
+
+  Lemma sp0_ok : 1 <= sp0 <= 65535 /\ port_match (a_sport b) pb sp0.
+  Proof.
+    destruct Wb as (W1 & _). destruct NEb as (N1 & _).
+    destruct (some_port_ok (a_sport b) W1 N1) as [R M]. split; auto. apply M.
+    intros H. apply ops_proto. now left.
+  Qed.
+  Lemma dp0_ok : 1 <= dp0 <= 65535 /\ port_match (a_dport b) pb dp0.
+  Proof.
+    destruct Wb as (_ & W2 & _). destruct NEb as (_ & N2).
+    destruct (some_port_ok (a_dport b) W2 N2) as [R M]. split; auto. apply M.
+    intros H. apply ops_proto. now right.
+  Qed.
+
+  (** 1. protocol *)
+  Lemma exact_proto : shadow_proto pl b t = true.
+  Proof.
+    unfold shadow_proto. rewrite proto_ip. destruct (N.eqb_spec (a_proto t) 0) as [|NZ]; [reflexivity|].
+    cbn [orb]. apply N.eqb_eq.
+    destruct pb_ok as [P1 P2]. destruct sp0_ok as [S1 S2]. destruct dp0_ok as [D1 D2].
+    pose proof (den_bottom pb src0 dst0 sp0 dp0 (a_flags b) P1 P2
+                  (create_prefix_lt _ _ B1) (in_wild_self _ _ B1)
+                  (create_prefix_lt _ _ B3) (in_wild_self _ _ B3) S1 S2 D1 D2 flags_all) as K.
+    destruct K as ([Z|Z] & _); [congruence|]. cbn [k_proto] in Z.
+    destruct (N.eq_dec (a_proto b) 0) as [E0|NE0].
+    - (* bottom is ip: a second packet with another protocol *)
+      exfalso.
+      assert (HS : has_op (a_sport b) = false /\ has_op (a_dport b) = false /\ a_flags b = []).
+      { destruct Wb as (_ & _ & Hp & Hf).
+        destruct (has_op (a_sport b)) eqn:O1; [destruct (Hp (or_introl eq_refl)); congruence|].
+        destruct (has_op (a_dport b)) eqn:O2; [destruct (Hp (or_intror eq_refl)); congruence|].
+        destruct (a_flags b) eqn:F; auto. exfalso. assert (a_proto b = 6) by (apply Hf; discriminate). congruence. }
+      destruct HS as (O1 & O2 & F).
+      assert (PM : forall p x, port_match p 2 x \/ has_op p = true).
+      { intros p x. unfold port_match, has_op. destruct (p_op p); auto. }
+      pose proof (den_bottom 2 src0 dst0 1 1 [] (or_introl E0) ltac:(lia)
+                  (create_prefix_lt _ _ B1) (in_wild_self _ _ B1)
+                  (create_prefix_lt _ _ B3) (in_wild_self _ _ B3) ltac:(lia)) as K2.
+      assert (M1 : port_match (a_sport b) 2 1) by (destruct (PM (a_sport b) 1); [auto|congruence]).
+      assert (M2 : port_match (a_dport b) 2 1) by (destruct (PM (a_dport b) 1); [auto|congruence]).
+      specialize (K2 M1 ltac:(lia) M2). rewrite F in K2. specialize (K2 (or_introl eq_refl)).
+      destruct K2 as ([Z2|Z2] & _); [congruence|]. cbn [k_proto] in Z2.
+      assert (Hpb : pb = 1) by (unfold pb; rewrite E0; reflexivity). congruence.
+    - assert (Hpb : pb = a_proto b) by (unfold pb; rewrite (proj2 (N.eqb_neq _ _) NE0); reflexivity).
+      congruence.
+  Qed.
+
+  (** 2. addresses *)
+  Lemma exact_src : wild_subset bsb msb bst mst.
+  Proof.
+    intros x Hx IN. destruct pb_ok as [P1 P2]. destruct sp0_ok as [S1 S2]. destruct dp0_ok as [D1 D2].
+    pose proof (den_bottom pb x dst0 sp0 dp0 (a_flags b) P1 P2 Hx IN
+                  (create_prefix_lt _ _ B3) (in_wild_self _ _ B3) S1 S2 D1 D2 flags_all) as K.
+    destruct K as (_ & K & _). cbn in K. now apply in_sets_single in K.
+  Qed.
+  Lemma exact_dst : wild_subset bdb mdb bdt mdt.
+  Proof.
+    intros x Hx IN. destruct pb_ok as [P1 P2]. destruct sp0_ok as [S1 S2]. destruct dp0_ok as [D1 D2].
+    pose proof (den_bottom pb src0 x sp0 dp0 (a_flags b) P1 P2
+                  (create_prefix_lt _ _ B1) (in_wild_self _ _ B1) Hx IN S1 S2 D1 D2 flags_all) as K.
+    destruct K as (_ & _ & K & _). cbn in K. now apply in_sets_single in K.
+  Qed.
+
+  (** 3. ports *)
+  Lemma port_match_in p proto x : has_op p = true -> port_match p proto x -> In x (p_ports p).
+  Proof. intros H M. now apply (has_op_match p proto x H M). Qed.
+
+  Lemma full_list l : le_sorted l -> (forall x, In x l -> 1 <= x <= 65535) ->
+    (forall p, 1 <= p <= 65535 -> In p l) -> length (dedup_sorted l) = N.to_nat 65535.
+  Proof.
+    intros S R F. rewrite <- all_ports_length. f_equal. apply lt_sorted_ext.
+    - now apply dedup_sorted_lt.
+    - apply all_ports_lt_sorted.
+    - intros p. rewrite dedup_sorted_In, in_all_ports. split; auto.
+  Qed.
+
+  Lemma exact_sport : shadow_port (a_sport b) (a_sport t) = true.
+  Proof.
+    unfold shadow_port. destruct (has_op (a_sport t)) eqn:Ot; [|reflexivity].
+    destruct Wb as ((Sb & Rb) & _). destruct Wt as ((St & Rt) & _).
+    destruct pb_ok as [P1 P2]. destruct dp0_ok as [D1 D2].
+    assert (K : forall x, 1 <= x <= 65535 -> port_match (a_sport b) pb x -> In x (p_ports (a_sport t))).
+    { intros x Hx M.
+      pose proof (den_bottom pb src0 dst0 x dp0 (a_flags b) P1 P2
+                  (create_prefix_lt _ _ B1) (in_wild_self _ _ B1)
+                  (create_prefix_lt _ _ B3) (in_wild_self _ _ B3) Hx M D1 D2 flags_all) as K.
+      destruct K as (_ & _ & _ & K & _). cbn in K. now apply (port_match_in _ _ _ Ot K). }
+    destruct (has_op (a_sport b)) eqn:Ob.
+    - apply subset_sorted_complete; auto. intros x Hx. apply K; [now apply Rb|].
+      unfold port_match. unfold has_op in Ob. destruct (p_op (a_sport b)) eqn:E; [|discriminate].
+      split; auto. apply ops_proto. left. unfold has_op. now rewrite E.
+    - apply Nat.eqb_eq. apply full_list; auto. intros p Hp. apply K; auto.
+      unfold port_match. unfold has_op in Ob. now destruct (p_op (a_sport b)).
+  Qed.
+
+  Lemma exact_dport : shadow_port (a_dport b) (a_dport t) = true.
+  Proof.
+    unfold shadow_port. destruct (has_op (a_dport t)) eqn:Ot; [|reflexivity].
+    destruct Wb as (_ & (Sb & Rb) & _). destruct Wt as (_ & (St & Rt) & _).
+    destruct pb_ok as [P1 P2]. destruct sp0_ok as [S1 S2].
+    assert (K : forall x, 1 <= x <= 65535 -> port_match (a_dport b) pb x -> In x (p_ports (a_dport t))).
+    { intros x Hx M.
+      pose proof (den_bottom pb src0 dst0 sp0 x (a_flags b) P1 P2
+                  (create_prefix_lt _ _ B1) (in_wild_self _ _ B1)
+                  (create_prefix_lt _ _ B3) (in_wild_self _ _ B3) S1 S2 Hx M flags_all) as K.
+      destruct K as (_ & _ & _ & _ & K & _). cbn in K. now apply (port_match_in _ _ _ Ot K). }
+    destruct (has_op (a_dport b)) eqn:Ob.
+    - apply subset_sorted_complete; auto. intros x Hx. apply K; [now apply Rb|].
+      unfold port_match. unfold has_op in Ob. destruct (p_op (a_dport b)) eqn:E; [|discriminate].
+      split; auto. apply ops_proto. right. unfold has_op. now rewrite E.
+    - apply Nat.eqb_eq. apply full_list; auto. intros p Hp. apply K; auto.
+      unfold port_match. unfold has_op in Ob. now destruct (p_op (a_dport b)).
+  Qed.
+
+  (** 4. flags *)
+  Lemma exact_flags : shadow_flags (a_flags b) (a_flags t) = true.
+  Proof.
+    unfold shadow_flags. destruct (a_flags t) as [|t0 tt] eqn:Ft; [reflexivity|].
+    destruct pb_ok as [P1 P2]. destruct sp0_ok as [S1 S2]. destruct dp0_ok as [D1 D2].
+    assert (K : forall fl, flags_match (a_flags b) pb fl -> flags_match (t0 :: tt) pb fl).
+    { intros fl M.
+      pose proof (den_bottom pb src0 dst0 sp0 dp0 fl P1 P2
+                  (create_prefix_lt _ _ B1) (in_wild_self _ _ B1)
+                  (create_prefix_lt _ _ B3) (in_wild_self _ _ B3) S1 S2 D1 D2 M) as K.
+      destruct K as (_ & _ & _ & _ & _ & K). cbn in K. now rewrite Ft in K. }
+    destruct (a_flags b) as [|b0 bb] eqn:Fb.
+    - exfalso. destruct (K [] (or_introl eq_refl)) as [C|(_ & f & _ & [])]. discriminate.
+    - apply forallb_forall. intros f Hf. apply mem_str_In.
+      assert (P6 : pb = 6) by (apply flags_proto; rewrite Fb; discriminate).
+      destruct (K [f]) as [C|(_ & f' & H1 & [<-|[]])]; [|discriminate|exact H1].
+      right. split; auto. exists f. split; [exact Hf|now left].
+  Qed.
+
+  Theorem exact_complete : a_permit b = a_permit t -> shadow_of pl false false b t = Ok true.
+  Proof.
+    intros EA. unfold shadow_of. rewrite EA, Bool.eqb_reflx. cbn [negb].
+    rewrite exact_proto. cbn [negb]. unfold shadow_addr. cbn [andb].
+    destruct (subnet_of_exact (a_src b) (a_src t) bsb msb bst mst B1 B2 B5 B6 Dsb Dst) as (r1 & E1 & H1).
+    destruct (subnet_of_exact (a_dst b) (a_dst t) bdb mdb bdt mdt B3 B4 B7 B8 Ddb Ddt) as (r2 & E2 & H2).
+    rewrite E1. cbn [bind]. rewrite (proj2 H1 exact_src). cbn [negb].
+    rewrite E2. cbn [bind]. rewrite (proj2 H2 exact_dst). cbn [negb].
+    now rewrite exact_sport, exact_dport, exact_flags.
+  Qed.
+End Exact.
+
+(** * the skip options (C11) *)
+Definition skipped (sg snc : bool) (x y : addr) : bool :=
+  (sg && (atype_eqb (addr_type x) TGroup || atype_eqb (addr_type y) TGroup))
+  || (snc && (atype_eqb (addr_type x) TWildcard || atype_eqb (addr_type y) TWildcard)
+          && negb (has_ipnet x && has_ipnet y)).
+
+Lemma shadow_addr_skip sg snc x y r :
+  shadow_addr false false x y = Ok r ->
+  shadow_addr sg snc x y = Ok (r && negb (skipped sg snc x y)).
+Proof.
+  unfold shadow_addr, skipped. cbn [andb]. intros H.
+  destruct (sg && _) eqn:E1; cbn [orb negb].
+  - now rewrite andb_false_r.
+  - destruct (snc && _ && _) eqn:E2; cbn [negb].
+    + now rewrite andb_false_r.
+    + now rewrite andb_true_r.
+Qed.
+
+Theorem skip_rule pl sg snc b t r :
+  shadow_of pl false false b t = Ok r ->
+  shadow_of pl sg snc b t =
+    Ok (r && negb (skipped sg snc (a_src b) (a_src t)) && negb (skipped sg snc (a_dst b) (a_dst t))).
+Proof.
+  unfold shadow_of. destruct (negb (Bool.eqb (a_permit b) (a_permit t))); [intros [= <-]; reflexivity|].
+  destruct (negb (shadow_proto pl b t)); [intros [= <-]; reflexivity|].
+  destruct (shadow_addr false false (a_src b) (a_src t)) as [s| | | |] eqn:ES; try discriminate.
+  cbn [bind]. rewrite (shadow_addr_skip sg snc _ _ s ES). cbn [bind].
+  destruct s; cbn [andb negb].
+  - destruct (shadow_addr false false (a_dst b) (a_dst t)) as [d| | | |] eqn:ED; try discriminate.
+    cbn [bind]. rewrite (shadow_addr_skip sg snc _ _ d ED).
+    destruct (skipped sg snc (a_src b) (a_src t)); cbn [negb bind andb].
+    + intros H. destruct d; cbn [negb] in H; injection H as <-; [|reflexivity].
+      now rewrite andb_false_r.
+    + cbn [bind]. destruct d; cbn [andb negb].
+      * destruct (skipped sg snc (a_dst b) (a_dst t)); cbn [negb].
+        -- intros [= <-]. now rewrite andb_false_r.
+        -- intros [= <-]. now rewrite !andb_true_r.
+      * intros [= <-]. reflexivity.
+  - intros [= <-]. reflexivity.
+Qed.
+
+Lemma tb_ones k i : tb (N.ones (N.of_nat k)) i = Nat.ltb i k.
+Proof.
+  unfold tb. destruct (Nat.ltb i k) eqn:E.
+  - apply Nat.ltb_lt in E. apply N.ones_spec_low. lia.
+  - apply Nat.ltb_ge in E. apply N.ones_spec_high. lia.
+Qed.
+
+Lemma ncwb_hostmask len : ncwb (hostmask len) = [].
+Proof.
+  unfold hostmask, W.
+  assert (E : prefixlen_idx (N.ones (N.of_nat (32 - len))) = (32 - len)%nat).
+  { apply lowrun_unique; [lia|]. intros i _. apply tb_ones. }
+  apply ncwb_nil_iff. rewrite E. intros i Hi. rewrite tb_ones. apply Nat.ltb_ge. lia.
+Qed.
+
+(** for addresses built from spellings the skipped kinds are exactly "group" and
+    "wildcard without a single network" (a non-contiguous wildcard) *)
+Lemma spelled_nc_type pl limit sp a :
+  addr_of_spelling pl limit sp = Ok a -> has_ipnet a = false ->
+  addr_type a = TWildcard \/ addr_type a = TGroup.
+Proof.
+  destruct sp as [|x|x len|x m|n its]; cbn [addr_of_spelling]; intros H NI.
+  - destruct (new_wild limit 0 ALL_ONES) as [w| | | |] eqn:E; try discriminate. injection H as <-.
+    exfalso. apply new_wild_consistent in E. destruct E as (_ & _ & I & _).
+    unfold has_ipnet in NI. cbn [addr_ipnet] in NI. rewrite I in NI.
+    rewrite ALL_ONES_val in NI. vm_compute in NI. discriminate.
+  - destruct (new_wild limit x 0) as [w| | | |] eqn:E; try discriminate. injection H as <-.
+    exfalso. apply new_wild_consistent in E. destruct E as (_ & _ & I & _).
+    unfold has_ipnet in NI. cbn [addr_ipnet] in NI. rewrite I in NI.
+    unfold create_ipnet in NI. cbn in NI. destruct (N.eqb 0 ALL_ONES); discriminate.
+  - destruct (Nat.ltb W len); [discriminate|].
+    destruct (new_wild limit _ _) as [w| | | |] eqn:E; try discriminate. cbn [bind] in H.
+    injection H as <-. exfalso. apply new_wild_consistent in E. destruct E as (_ & _ & I & _).
+    unfold has_ipnet in NI. cbn [addr_ipnet] in NI. rewrite I in NI.
+    rewrite create_ipnet_spec in NI by apply hostmask_lt.
+    pose proof (ncwb_hostmask len) as NC.
+    rewrite NC in NI. discriminate.
+  - destruct (new_wild limit x m) as [w| | | |] eqn:E; try discriminate. cbn [bind] in H.
+    injection H as <-. unfold has_ipnet in NI. cbn [addr_ipnet addr_type] in *.
+    destruct (w_ipnet w); [discriminate|]. cbn. now left.
+  - injection H as <-. now right.
+Qed.
